@@ -107,8 +107,18 @@ def run_jobs(jobs, chunk=8, timeout=1500):
         try:
             return run_impl("impl_parser.py", {"jobs": c}, timeout=timeout)
         except Exception as e:  # noqa
-            return {"dt_table": None, "jobs": [{"id": j["id"], "seed": j["seed"], "model": j["model"], "cases": [],
-                                                "crashed": f"driver process failed: {e!r}"[:3000]} for j in c]}
+            # the process died (e.g. a signal inside a C extension): once more, every job in a process of its own, so
+            # that a reproducible crash is pinned to its job and an unreproducible one costs nothing but a note
+            out = {"dt_table": None, "jobs": [], "retried": f"{e!r}"[:300]}
+            for j in c:
+                try:
+                    o = run_impl("impl_parser.py", {"jobs": [j]}, timeout=timeout)
+                    out["dt_table"] = o["dt_table"]
+                    out["jobs"] += o["jobs"]
+                except Exception as e2:  # noqa
+                    out["jobs"].append({"id": j["id"], "seed": j["seed"], "model": j["model"], "cases": [],
+                                        "crashed": f"driver process failed twice: {e!r}; alone: {e2!r}"[:3000]})
+            return out
 
     with cf.ThreadPoolExecutor(max_workers=len(chunks) or 1) as ex:
         outs = list(ex.map(one, chunks))
@@ -116,6 +126,7 @@ def run_jobs(jobs, chunk=8, timeout=1500):
     res = {"dt_table": tables[0] if tables else "(@nil (qname * option (ptype * option str * option ptype)))", "jobs": []}
     for o in outs:
         res["jobs"] += o["jobs"]
+    res["retried"] = [o["retried"] for o in outs if o.get("retried")]
     res["jobs"].sort(key=lambda j: j["id"])
     return res
 
@@ -138,6 +149,8 @@ def job_replay_info(j):
 
 def harness_problems(ck, res):
     n = 0
+    for r in res.get("retried", []):
+        ck.notes.append(f"a driver process died and its jobs were re-run one per process: {r}")
     for j in res["jobs"]:
         if j.get("crashed"):
             ck.failure("harness-driver-crashed", f"impl_parser.py crashed on {j['model']} seed {j['seed']}: {j['crashed'][-400:]}",
@@ -226,6 +239,17 @@ def run(ck: Check):
         strict_n += bool(code & 32)
         if code & 48:
             distinct.add((j["id"], what, tuple(c["cfg"]), c["tag"]))
+
+    # an unknown element directly inside an element bound through a union of classes (wildcard-free candidates):
+    # recorded and replayed with the user's options, so it must be transparent when unknown properties are ignored
+    upairs = [(j, c) for (j, c) in inj_meta if c.get("union_child") and not c["cfg"][0]]
+    for i in common.coq_bad_indices(f"c10_union_{os.getpid()}", IMPORTS, defs, "outcome * outcome", "oracle_same",
+                                    [f"({c['obs']}, {c['plain_obs']})" for _, c in upairs], shard=300):
+        j, c = upairs[i]
+        ck.failure("unknown-content-changes-result-in-union",
+                   f"fail_on_unknown_properties off, unknown element inside a union-bound element ({'; '.join(c['replay'].get('what', []))}) "
+                   f"cfg={c['cfg']}: {c['obs'][:150]} vs plain {c['plain_obs'][:150]}",
+                   {"job": job_replay_info(j), "case": c["replay"], "observed": c["obs"][:400], "plain": c["plain_obs"][:400]})
 
     bad = common.coq_bad_indices(f"c10_corr_{os.getpid()}", IMPORTS, defs, "corr_case", "agree_parse", corr_terms, shard=50)
     for i in bad:
@@ -324,7 +348,8 @@ def run(ck: Check):
                                     "injection_cases": len(inj_terms), "guard_true": guard_n, "strict_position": strict_n,
                                     "conversion_pairs": len(pairs), "conversion_pairs_with_warning": warned,
                                     "json_transparent": len(jpairs), "json_strict": len(jstrict), "json_conversion": len(jc_terms),
-                                    "json_conversion_unconvertible": sum(1 for d, _ in jc_meta if d["unconvertible"])}
+                                    "json_conversion_unconvertible": sum(1 for d, _ in jc_meta if d["unconvertible"]),
+                                    "union_child_positions_swept": len(upairs)}
     ck.cov["samples"] = [{"model": j["model"], "seed": j["seed"], "what": c["replay"].get("what"), "cfg": c["cfg"], "tag": c["tag"],
                           "observed": c["obs"][:160]} for (j, c) in (inj_meta[:4] + corr_meta[:3])]
     return ck.finish(obligations=obligations, discharged=discharged,
